@@ -107,6 +107,7 @@ func (t *Collection) closeCollection() { // Just "close" is a keyword.
 func (t *Collection) GetItem(key []byte, withValue bool) (i *Item, err error) {
 	rnl := t.rootAddRef()
 	defer t.rootDecRef(rnl)
+	verifPoint("read.pinned")
 	n := rnl.root
 	for {
 		nNode, err := n.read(t.store)
@@ -188,6 +189,7 @@ func (t *Collection) SetItem(item *Item) (err error) {
 	}
 	rnl := t.rootAddRef()
 	defer t.rootDecRef(rnl)
+	verifPoint("mut.pinned")
 	root := rnl.root
 	n := t.mkNode(nil, nil, nil, 1, uint64(len(item.Key))+uint64(item.NumValBytes(t)))
 	t.store.ItemAddRef(t, item)
@@ -202,9 +204,11 @@ func (t *Collection) SetItem(item *Item) (err error) {
 	// Can't reclaim n right now because r might point to n.
 	rnlNew.reclaimLater[0] = t.reclaimMarkUpdate(nloc,
 		&rnl.reclaimMark, &rnlNew.reclaimMark)
+	verifPoint("mut.built")
 	if !t.rootCAS(rnl, rnlNew) {
 		return errors.New("concurrent mutation attempted")
 	}
+	verifPoint("mut.published")
 	t.rootDecRef(rnl)
 	return nil
 }
@@ -232,6 +236,7 @@ func (t *Collection) Delete(key []byte) (wasDeleted bool, err error) {
 	}
 	rnl := t.rootAddRef()
 	defer t.rootDecRef(rnl)
+	verifPoint("mut.pinned")
 	root := rnl.root
 	i, err := t.GetItem(key, false)
 	if err != nil || i == nil {
@@ -261,9 +266,11 @@ func (t *Collection) Delete(key []byte) (wasDeleted bool, err error) {
 	rnlNew.reclaimLater[2] = t.reclaimMarkUpdate(middle,
 		&rnl.reclaimMark, &rnlNew.reclaimMark)
 	t.markReclaimable(rnlNew.reclaimLater[2], &rnlNew.reclaimMark)
+	verifPoint("mut.built")
 	if !t.rootCAS(rnl, rnlNew) {
 		return false, errors.New("concurrent mutation attempted")
 	}
+	verifPoint("mut.published")
 	t.rootDecRef(rnl)
 	return true, nil
 }
@@ -415,6 +422,7 @@ func (t *Collection) iterate(it *iterator, v iteratorVisitor) {
 		return
 	}
 	it.err = v(t, func(i *Item) bool {
+		verifPoint("iter.produce")
 		it.items <- i
 		_, ok := <-it.next
 		return ok
@@ -615,6 +623,7 @@ func (t *Collection) VisitItemsAscendEx(target []byte, withValue bool,
 	visitor ItemVisitorEx) error {
 	rnl := t.rootAddRef()
 	defer t.rootDecRef(rnl)
+	verifPoint("read.pinned")
 
 	var prevVisitItem *Item
 	var errCheckedVisitor error
@@ -643,6 +652,7 @@ func (t *Collection) VisitItemsDescendEx(target []byte, withValue bool,
 	visitor ItemVisitorEx) error {
 	rnl := t.rootAddRef()
 	defer t.rootDecRef(rnl)
+	verifPoint("read.pinned")
 
 	_, err := t.store.visitNodes(t, rnl.root,
 		target, withValue, visitor, 0, descendChoice)
@@ -661,6 +671,7 @@ func descendChoice(cmp int, n *node) (bool, *nodeLoc, *nodeLoc) {
 func (t *Collection) GetTotals() (numItems uint64, numBytes uint64, err error) {
 	rnl := t.rootAddRef()
 	defer t.rootDecRef(rnl)
+	verifPoint("read.pinned")
 	n := rnl.root
 	nNode, err := n.read(t.store)
 	if err != nil || n.isEmpty() || nNode == nil {
